@@ -206,7 +206,12 @@ def RIGHT(
     https://support.office.com/en-us/article/
         right-rightb-functions-240267ee-9afa-4639-a02b-f19e1786cf2f
     """
-    return str(text)[-int(num_chars):]
+    num_chars = int(num_chars)
+    if num_chars < 0:
+        raise xlerrors.ValueExcelError(f'{num_chars} is < 0')
+    if num_chars == 0:
+        return ''
+    return str(text)[-num_chars:]
 
 
 @xl.register()
